@@ -75,6 +75,9 @@ func pristine(spec ReSpec, op *Op, cap int64) oracleVal {
 		return v
 	}
 	oracleMiss++
+	if len(oracleCache) > 40000 {
+		oracleCache = map[string]oracleVal{} // bounded memory in long (thorough) batches
+	}
 	resetGlobals(0)
 	re, err := compileSpec(spec)
 	var v oracleVal
